@@ -1,6 +1,7 @@
 #pragma once
 
 #include <yaclib/fault/detail/fiber/mutex.hpp>
+#include <yaclib/fault/verif.hpp>
 
 #include <condition_variable>
 
@@ -72,6 +73,10 @@ class ConditionVariable {
 
   template <typename Timeout>
   WaitStatus WaitImpl(std::unique_lock<yaclib::detail::fiber::Mutex>& lock, const Timeout& timeout) {
+#ifdef YACLIB_VERIF
+    verif::BeginOp(this, nullptr, 0, std::is_same_v<Timeout, NoTimeoutTag> ? verif::kCvWait : verif::kCvWaitFor, -1, -1,
+                   0, 0);
+#endif
     InjectFault();
     lock.unlock();
     auto status = _queue.Wait(timeout);
